@@ -1,7 +1,7 @@
 """Property id -> check function."""
 import json
 from common import *
-import checks_txn, txnfam, findings
+import checks_txn, checks_cache, txnfam, findings
 
 
 def replay_txn(prop, path):
@@ -21,3 +21,21 @@ REPLAY = {}
 for p in ("C02", "C03", "C04", "C06", "C07", "C15"):
     CHECKS[p] = checks_txn.run_check
     REPLAY[p] = replay_txn
+
+
+def replay_generic(prop, path):
+    r = json.load(open(path))
+    vh = build_vh()
+    fn = GENERIC_CONFIRM[prop](vh)
+    got, _ = fn(r["case"])
+    if got:
+        print("VIOLATION property=%s replay=%s" % (prop, path))
+        print("  " + json.dumps(got[0])[:600])
+        return 1
+    print("replay: the recorded mismatch does not occur on this tree")
+    return 0
+
+
+GENERIC_CONFIRM = {"C05": checks_cache.confirm_fn}
+CHECKS["C05"] = checks_cache.run_check
+REPLAY["C05"] = replay_generic
